@@ -42,14 +42,14 @@ def _fault_plan(rng, kinds, nmax=3):
 
 CFG = {
     "C01": dict(
-        profile=dict(name="c01", geom_w=[2, 3, 3, 4, 4, 2, 2, 1, 6], x0_w=[3, 3, 2, 1], where_w=[2, 2, 3, 5],
+        profile=dict(name="c01", geom_w=[2, 3, 3, 4, 4, 2, 2, 1, 6], x0_w=[3, 3, 2, 1], where_w=[2, 2, 3, 5, 1],
                      cons_p=0.33, fam_w=[5, 2, 1, 0, 3, 1, 2]),
         n=dict(quick=128, thorough=4000), faulted=0.25, fault_kinds=["fit", "predict"],
         rule="distinct scenarios whose run completed with >=1 poll and >=1 search step (every target/constraint call and the final log judged)",
     ),
     "C02": dict(
         profile=dict(name="c02", cons_p=1.0, x0_w=[8, 1, 1, 0], x0_infeasible_p=0.1, x0_nearcons_p=0.12, x0_infeasible_near_p=0.12,
-                     geom_w=[3, 3, 2, 3, 3, 1, 1, 1, 3], where_w=[3, 2, 2, 3], noise_w=[4, 1, 2, 2],
+                     geom_w=[3, 3, 2, 3, 3, 1, 1, 1, 3], where_w=[3, 2, 2, 3, 1], noise_w=[4, 1, 2, 2],
                      knobs=dict(n_search=0.5)),
         n=dict(quick=128, thorough=4000),
         nontrivial=lambda r: (r["outcome"] == "completed" and r["n_polls"] >= 1 and r["n_calls"] >= 5) or
@@ -65,16 +65,21 @@ CFG = {
         rule="distinct scenarios whose run terminated normally after >=1 main-loop iteration (budget, counters, non-progress bound and message judged)",
     ),
     "C04": dict(
-        profile=dict(name="c04", noise=["none"], noise_w=[1], fam_w=[4, 2, 3, 1, 2, 1, 3], where_w=[3, 2, 3, 2], cons_p=0.3),
+        profile=dict(name="c04", noise=["none"], noise_w=[1], fam_w=[4, 2, 3, 1, 2, 1, 3], where_w=[3, 2, 3, 2, 1], cons_p=0.3),
         n=dict(quick=128, thorough=4000),
         rule="distinct deterministic scenarios completed with >=1 poll and >=1 search step",
     ),
     "C05": dict(
         profile=dict(name="c05", noise=["none", "auto", "declared", "hetero"], noise_w=[1, 3, 3, 3],
                      fam_w=[6, 2, 1, 0, 1, 1, 0], knobs=dict(noise_final_samples=0.85), budget_min=30,
-                     nfs_choices=[0, 1, 1, 1, 1, 2, 3, 5, 10], sigma_log10=(-2, 1.0), budget_max=160,
+                     nfs_choices=[0, 1, 1, 1, 1, 2, 3, 5, 10], sigma_log10=(-2, 1.0), budget_max=160, where_w=[4, 2, 2, 2, 3],
                      budget_kinds=["small", "mid", "mid", "large"], cons_p=0.15),
         n=dict(quick=96, thorough=3000),
+        # single final sample under specified noise with the start already optimal: the supplementary
+        # observation/SD must come from the record of x (record 0 of the log)
+        extra=[(dict(name="c05single", noise=["hetero", "declared"], noise_w=[3, 1], nfs_choices=[1], knobs=dict(noise_final_samples=1.0),
+                     where=["x0", "plausible"], where_w=[3, 1], x0=["inside"], x0_w=[1], fam=["quad", "abs"], fam_w=[3, 1],
+                     budget_kinds=["small", "mid"], budget_min=30, cons_p=0.0, sigma_log10=(-2, 0.5)), 24, 400)],
         nontrivial=lambda r: r["outcome"] == "completed" and (r["probes"].get("c05_final_checked", 0) > 0
                                                               or r["probes"].get("noise_test_run", 0) > 0),
         rule="distinct scenarios where the final-sampling clause or the noise-detection clause was actually evaluated",
@@ -97,7 +102,7 @@ CFG = {
         rule="distinct scenarios completed with >=2 poll steps (each poll step judged against the reference mesh rule)",
     ),
     "C14": dict(
-        profile=dict(name="c14", fam_w=[4, 1, 1, 0, 1, 1, 4], cons_p=0.2, where_w=[3, 2, 3, 2]),
+        profile=dict(name="c14", fam_w=[4, 1, 1, 0, 1, 1, 4], cons_p=0.2, where_w=[3, 2, 3, 2, 1]),
         n=dict(quick=96, thorough=3000),
         nontrivial=lambda r: r["outcome"] == "completed" and r["n_polls"] >= 2,
         rule="distinct scenarios completed with >=2 poll steps (every polled point matched against the generated basis)",
@@ -110,7 +115,7 @@ CFG = {
         rule="distinct scenarios completed with >=2 local GP fits and >=2 acquisition evaluations, all judged",
     ),
     "C17": dict(
-        profile=dict(name="c17", where_w=[2, 1, 4, 4], noise_w=[7, 1, 1, 1], cons_p=0.35, fam_w=[5, 2, 2, 1, 3, 1, 2],
+        profile=dict(name="c17", where_w=[2, 1, 4, 4, 1], noise_w=[7, 1, 1, 1], cons_p=0.35, fam_w=[5, 2, 2, 1, 3, 1, 2],
                      geom_w=[3, 3, 3, 2, 2, 1, 2, 1, 3]),
         n=dict(quick=128, thorough=4000),
         nontrivial=lambda r: r["outcome"] == "completed" and r["filter_calls"] >= 3,
@@ -159,6 +164,15 @@ def make_cases(prop, tier, seed, n=None):
                 scn["population"] = "faulted"
         scn.setdefault("population", "clean")
         cases.append(scn)
+    # extra, narrowly targeted sub-populations (states that the broad swarm reaches too rarely)
+    for prof2, nq, nt in cfg.get("extra", []):
+        m = nq if tier == "quick" else nt
+        if n is not None and n < cfg["n"][tier]:
+            m = max(1, int(m * n / cfg["n"][tier]))
+        for i in range(m):
+            scn = gen.make_scenario(seed, prof2, i)
+            scn["population"] = "clean:" + prof2["name"]
+            cases.append(scn)
     return cases
 
 
